@@ -176,6 +176,16 @@ CLAIMS["C04"] = dict(
     note="networkx.topological_sort is trusted to return some order; the order it returned is checked. Dust-level inflow at a junction with all-zero proportions is counted ambiguous.",
     design="8.C04")
 
+CLAIMS["C18"] = dict(
+    technique="Lean 4 model of the framework validation rules (Atomica.Rules) proved equivalent to a declarative statement of the documented rules + a translator-generated table of every error-formatting expression (kernel `decide`) + correspondence over a catalogue of single-rule mutations of generated and library files (modes A, E, F)",
+    text="PARTIAL for the readers as a whole (pandas/openpyxl parsing is only reached by the mutation stream). Proved: validate_iff_documented (the rule model accepts exactly the frameworks satisfying the documented rules, every rejection carries a "
+         "dedicated rule), accepted_gives_WF / accepted_idsNodup (an accepted framework instantiated with any populations yields a net satisfying the engine theorems' structural hypotheses), cascade_nested_sound, acyclicity and name-check lemmas, "
+         "and errors_wellformed: for every `raise X(<fmt> % <args>)` / .format in framework.py, data.py, excel.py, programs.py, parameters.py, cascade.py of the CURRENT source (table regenerated on every run) placeholders = arguments and the "
+         "argument tuple is parenthesised. Correspondence: generated valid frameworks must be accepted, produce a blank databook that reads back, and run once filled; each of 170 framework, 31 databook and 26 program-book single-rule "
+         "mutations must yield the dedicated InvalidFramework / InvalidDatabook / InvalidProgramBook / InvalidCascade - any other exception class or silent acceptance is a violation naming the mutation.",
+    note="_sanitize_dataframe, _assign_junction_duration_groups, the Plots sheet and the databook/progbook readers are not in the Lean model; rule order is compared with the implementation's message by regex.",
+    design="8.C18")
+
 NA_DEFAULT = "not yet claimed: model, theorems and correspondence under construction (see DESIGN.md section 8)"
 NA = {}
 
